@@ -302,6 +302,31 @@ macro_rules! ks_backend {
                             scr_call::<BE, _>(exact, decl, f ^ 24, op, &mut scr_log, |s| m.glwe_from_lwe(&mut res, &a, &ksk_p, s));
                             out.res = dump_glwe(&res);
                         }
+                        "lwe_encdec" => {
+                            // C01 for LWE: encrypt a plaintext of ps limbs (radix = the ciphertext's), decrypt into pdec limbs
+                            let koff = gu(c, "koff", 0) as u32;
+                            let (ps, pdec) = (gu(c, "ps", sin as u64) as u32, gu(c, "pdec", sin as u64) as u32);
+                            out.sk_in = lwe_dump_sk(&sk_lwe);
+                            out.sk_out = lwe_dump_sk(&sk_lwe);
+                            let k = sin * bin - koff;
+                            let mut ct = LWE::alloc(Degree(nlwe), Base2K(bin), TorusPrecision(k));
+                            let mut pt = LWEPlaintext::alloc(Base2K(bin), TorusPrecision(ps * bin));
+                            let mut prng = Rng::new(seed ^ id ^ 0x71);
+                            for j in 0..pt.data().size() {
+                                pt.data_mut().at_mut(0, j)[0] = if pc == 2 { if prng.below(2) == 0 { -half } else { half - 1 } } else { prng.sym(half).clamp(-half, half - 1) };
+                            }
+                            let decl = m.lwe_encrypt_sk_tmp_bytes(&ct);
+                            let ni = noise(k);
+                            scr_call::<BE, _>(exact, decl, f ^ 23, "lwe_encrypt_sk", &mut scr_log, |s| m.lwe_encrypt_sk(&mut ct, &pt, &sk_lwe, &ni, &mut source_xe, &mut source_xa, s));
+                            let mut dec = LWEPlaintext::alloc(Base2K(bin), TorusPrecision(pdec * bin));
+                            Rng::new(f ^ 31).fill(dec.data_mut().data.as_mut());
+                            let decl = m.lwe_decrypt_tmp_bytes(&ct);
+                            scr_call::<BE, _>(exact, decl, f ^ 24, "lwe_decrypt", &mut scr_log, |s| m.lwe_decrypt(&ct, &mut dec, &sk_lwe, s));
+                            let pd = |p: &LWEPlaintext<Vec<u8>>| json!({"b": bin, "size": p.data().size(), "d": (0..p.data().size()).map(|j| vec![p.data().at(0, j)[0]]).collect::<Vec<_>>()});
+                            out.input = dump_lwe(&ct);
+                            out.key = json!({"pt": pd(&pt)});
+                            out.res = json!({"rank": 0, "lwe": 2, "b": bin, "size": dec.data().size(), "pt": pd(&dec)});
+                        }
                         "sample_extract" => {
                             // purely structural: rank-1 GLWE -> LWE of dimension nlwe <= N, same radix
                             let mut sk1 = GLWESecret::alloc(Degree(n as u32), Rank(1));
